@@ -217,9 +217,18 @@ def task_cipher(cell, p, s, ref, name, keylen, maxparts, maxlen, quick):
                         mod = bytes(mod)
                         rvs, out = attempt(mod if what == "ciphertext-or-tag" else want, mod if what == "iv" else civ, mod if what == "aad" else var["aad"])
                         cell.count("tamper_cases")
+                        where = what if what != "ciphertext-or-tag" else ("tag" if bit // 8 >= n else "ciphertext")
                         if rvs == [0, 0]:
-                            where = what if what != "ciphertext-or-tag" else ("tag" if bit // 8 >= n else "ciphertext")
                             cell.V("C10|%s|tampered-%s-accepted|ptlen=%d" % (vtag, where, n), {"bit": bit})
+                        # ... and the same tampered input through the multi-part calls (whole input in one Update, and cut after the first byte); one bit per byte
+                        if bit % 8 == 0:
+                            ctt = mod if what == "ciphertext-or-tag" else want
+                            ms2 = mech(C.CKM_AES_GCM, gcm_params(mod if what == "iv" else civ, mod if what == "aad" else var["aad"], var["tag"]))
+                            for cuts in ([ctt], [ctt[:1], ctt[1:]]):
+                                rvm, outm = multipart(p, s, "Decrypt", "C_DecryptInit s=%d mech=%s k=%d" % (s, ms2, h), cuts, n + 64)
+                                cell.count("tamper_cases")
+                                if not any(rvm):
+                                    cell.V("C10|%s|tampered-%s-accepted-by-multi-part-decryption|ptlen=%d" % (vtag, where, n), {"bit": bit, "parts": [len(c) for c in cuts]})
                 if var["aad"]:
                     rvs, out = attempt(want, civ, b"")
                     if rvs == [0, 0]:
